@@ -133,7 +133,9 @@ Definition round_hook (evs : list ev) : option (hook_kind * json * hook_resp) :=
           match decode_composite ans with
           | Some r =>
               let pns := get_ns (jget "parent" (obj_map body)) in
-              Some (hk, body, mkHR (hr_status r) (map (default_ns pns) (hr_children r)) (hr_resync r) (hr_finalized r))
+              Some (hk, body, mkHR (hr_status r)
+                                   (map (default_ns pns) (filter (fun c => match c with Some _ => true | None => false end) (hr_children r)))
+                                   (hr_resync r) (hr_finalized r))
           | None => None end
       | _, _ => None
       end
